@@ -180,6 +180,7 @@ class Driver(object):
         self.just_ruled = None
         self.just_nested = None
         self.after_clear = None
+        self.cycle = None
         self.fresh_n = 0
 
     def family_ok(self, lrus):
@@ -236,6 +237,48 @@ class Driver(object):
                 self.note(op)
                 return op
         self.after_clear = None
+        # rule replaced on an anchor that is edited in between: remove the rule, edit the webentity that
+        # holds the anchor itself (or attach the anchor to one), declare a rule on the anchor again
+        if self.cycle is not None and rng.random() < self.profile.get("rulecycle", 0.7):
+            stage, a = self.cycle
+            if stage == "below":        # rule just declared on a: new nodes beneath a, then the rule is removed
+                self.cycle = ("unrule", a)
+                ls = [a + x for x in rng.sample(u.paths[:4], 2)] + [a]
+                if self.family_ok(ls):
+                    op = {"op": "AddPages", "ls": ls[:rng.choice([2, 3])], "cr": rng.random() < 0.5}
+                    self.note(op)
+                    return op
+            if stage == "unrule":
+                self.cycle = None
+                if a in self.ram:
+                    op = {"op": "RemoveRule", "anchor": a}
+                    self.ram.pop(a, None)         # (not through note(): no new cycle)
+                    return op
+            if stage == "edit":
+                self.cycle = ("readd", a)
+                owner = [w for w, ps in we.items() if a in ps]
+                r = rng.random()
+                if owner and r < 0.35:
+                    op = {"op": "DeleteWe", "id": owner[0], "ps": list(we[owner[0]])}
+                elif owner and r < 0.55:
+                    op = {"op": "RemovePrefix", "p": a, "id": owner[0]}
+                elif owner and len(we) > 1 and r < 0.75:
+                    op = {"op": "MovePrefix", "p": a, "to": rng.choice(sorted(we)), "frm": owner[0]}
+                else:
+                    op = {"op": "CreateWe", "ps": [a]}
+                self.note(op)
+                return op
+            self.cycle = None
+            op = {"op": "AddRule", "anchor": a, "rule": rng.choice(RULES), "wr": True}
+            if self.family_ok([l for l, _ in obs["pages"]] + u.lrus) or True:
+                save = dict(self.ram)
+                self.ram[a] = op["rule"]
+                ok = self.family_ok([l for l, _ in obs["pages"]] + u.lrus)
+                self.ram = save
+                if ok:
+                    self.note(op)
+                    return op
+        self.cycle = None
         # persistence pattern: close and reopen right after a request that issued webentity ids,
         # then create again (what a counter kept only in RAM breaks)
         if self.backend == "file" and self.weights.get("Reopen", 0) > 0:
@@ -297,8 +340,12 @@ class Driver(object):
             if len(stems_of(p)) >= 4:
                 self.just_nested = p
         if n == "AddRule":
+            if op.get("wr") and self.cycle is None and self.rng.random() < self.profile.get("rulebelow", 0.3):
+                self.cycle = ("below", op["anchor"])
             self.ram[op["anchor"]] = op["rule"]
         elif n == "RemoveRule":
+            if op["anchor"] in self.ram:
+                self.cycle = ("edit", op["anchor"])
             self.ram.pop(op["anchor"], None)
         elif n in ("Reopen", "Clear", "Recreate"):
             if n != "Reopen":
@@ -455,8 +502,15 @@ class Driver(object):
             frm = rng.choice([0, w, w]) if rng.random() < 0.9 else w + 1
             return {"op": name, "p": p, "to": to, "frm": frm, "alias": rng.random() < 0.3}
         if name == "AddRule":
-            return {"op": name, "anchor": u.host_prefix(), "rule": rng.choice(RULES),
-                    "wr": rng.random() < 0.9}
+            if self.ram and rng.random() < self.profile.get("ruleagain", 0.3):
+                # the rule already in force on an anchor, declared again (identical, or replaced)
+                a = rng.choice(sorted(self.ram))
+                r = self.ram[a] if rng.random() < 0.7 else rng.choice(RULES)
+                return {"op": name, "anchor": a, "rule": dict(r), "wr": rng.random() < 0.9}
+            a = u.host_prefix()
+            if we and rng.random() < self.profile.get("ruleonprefix", 0.3):
+                a = rng.choice(rng.choice(list(we.values())))     # an anchor that is a webentity prefix (often a leaf)
+            return {"op": name, "anchor": a, "rule": rng.choice(RULES), "wr": rng.random() < 0.9}
         if name == "RemoveRule":
             if not self.ram:
                 return None
